@@ -93,6 +93,18 @@ CLAIMED = {
                 "case) is not enumerated with all assignments.",
         "technique": TECH_E2,
     },
+    "C09": {
+        "category": "exploration",
+        "text": "Bounded-exhaustive metamorphic check: for every input of the slices (quick: thl on P4x3, ordered O3x2x2, unordered U3x2x3; thorough: "
+                "thl on all shapes with 5-6 object leaves x <=3 species leaves and P4x4, O3x3x3, O4x3x2, U3x3x3, U4x2x4), every coherent vector of the "
+                "menu and thl / ext_spfs / base_spfs / superdtl / base_uspfs, the ALL result is compared with the result on every transformation of a "
+                "finite menu (single-node child swaps, mirror, 3 node renamings, 2 family renamings, outgroup on either side, repetition on the same "
+                "object and on a fresh one, scaling x2/x3, each unit cost +1); plus a fixed corpus solved in fresh interpreters under "
+                "PYTHONHASHSEED 0..3 with byte-identical canonical output.",
+        "design_ref": "6 (C09), 7",
+        "note": "No oracle needed (metamorphic relations). Object-address-dependent iteration order is not controllable; results compared as sets.",
+        "technique": "bounded-exhaustive enumeration of inputs x finite transformation menu with metamorphic oracle; enumerated hash seeds in fresh processes",
+    },
     "C10": {
         "category": "exploration",
         "text": "Bounded-exhaustive differential check between the seven algorithms on every consistent labelled input of the slices "
